@@ -58,8 +58,20 @@ def table_diff(a, b):
     return None
 
 
+_SPELL = 2
+
+
+def use_case(case):
+    """Fix, as a pure function of the case, which of the accepted spellings of -x/--sample-sex the commands get
+    (f / x / female / Female, m / y / male / Male)."""
+    global _SPELL
+    from vk import gen
+
+    _SPELL = gen.pick(case, "sexword", 4)
+
+
 def _sex_word(female):
-    return "female" if female else "male"
+    return (("f", "x", "female", "Female") if female else ("m", "y", "male", "Male"))[_SPELL]
 
 
 def _sample_sex(arr, female, male_ref, par):
